@@ -16,7 +16,7 @@ func init() {
 		id: "C13",
 		li: levelInfo{
 			Level:       "other",
-			Explanation: "Static rules on the compression filter. R1: every in-place mutation of the request body reachable from a Filter.Do is dominated by a once-guard (a per-request flag that is tested and set), because the filter chain runs again when a request is resent after a redirect. R2: each copy into the original value has a zone witness len(source) <= len(destination) and the returned slice is strictly shorter than the original; otherwise the original slice is returned untouched. R3: the per-command value offsets and the stride equal the Redis syntax reference. R4: the banned set equals the documented list and that path completes the request and returns Stop. R5: header written = magic, algorithm byte, CR LF with length cpsHdrLen; the reader tests and strips the same offsets. R6: the decompress hook is registered under no condition other than nil-config tests and the skip set, in particular before the Enable test; the skip set is disjoint from the commands that return string/hash values. R7: the pooled writer is closed exactly once on every path and no slice of a pooled buffer's bytes is returned or stored. snappy itself and byte identity for all values are not decided. R8: the array arm of the reply decompression recurses into every element, in place or with write-back. R9 (shared with C08.R9): the compression options are read from the live configuration holder. R10: no request of the flagged type is constructed around the body of another request of that type unless the once-only flags are copied along. R11 (shared with C19.R11): pooled work buffers are copied out before release. R12 (shared with C03.R11): the decompression hook is registered only on the non-nil side of a test of the compression section, directly or through a predicate that implies it. R13: the filter object shared by the writer and the reader goroutine of a backend connection carries no mutable scratch state. R3 reads the offsets from a switch or from a constant map table. R14: nothing in the compression filter bounds the number of decompressed bytes (no limiting reader). R11 also: a function that takes an object from a pool and gives it back returns nothing derived from it.",
+			Explanation: "Static rules on the compression filter. R1: every in-place mutation of the request body reachable from a Filter.Do is dominated by a once-guard (a per-request flag that is tested and set), because the filter chain runs again when a request is resent after a redirect. R2: each copy into the original value has a zone witness len(source) <= len(destination) and the returned slice is strictly shorter than the original; otherwise the original slice is returned untouched. R3: the per-command value offsets and the stride equal the Redis syntax reference. R4: the banned set equals the documented list and that path completes the request and returns Stop. R5: header written = magic, algorithm byte, CR LF with length cpsHdrLen; the reader tests and strips the same offsets. R6: the decompress hook is registered under no condition other than nil-config tests and the skip set, in particular before the Enable test; the skip set is disjoint from the commands that return string/hash values. R7: the pooled writer is closed exactly once on every path and no slice of a pooled buffer's bytes is returned or stored. snappy itself and byte identity for all values are not decided. R8: the array arm of the reply decompression recurses into every element, in place or with write-back. R9 (shared with C08.R9): the compression options are read from the live configuration holder. R10: no request of the flagged type is constructed around the body of another request of that type unless the once-only flags are copied along. R11 (shared with C19.R11): pooled work buffers are copied out before release. R12 (shared with C03.R11): the decompression hook is registered only on the non-nil side of a test of the compression section, directly or through a predicate that implies it. R13: the filter object shared by the writer and the reader goroutine of a backend connection carries no mutable scratch state. R3 reads the offsets from a switch or from a constant map table. R14: nothing in the compression filter bounds the number of decompressed bytes (no limiting reader). R11 also: a function that takes an object from a pool and gives it back returns nothing derived from it. R15: no store into the Compression field of a configuration message. R6's value-returning commands include SET (GET option).",
 			Assumptions: []string{"no write to a bytes.Buffer happens between its Len() test and the Bytes() that is copied", "Redis syntax reference for value positions embedded in samlint/refdata.go"},
 			TrustedBase: []string{"go/ssa", "samlint ebounds.go + zone.go", "samlint etable.go"},
 		},
